@@ -12,6 +12,8 @@ open Absnfs Absnfs.Server
 namespace Props.C04
 
 theorem gen_readdirplus_and_setattr : (Gen.readdirplusUsesLstat && Gen.setattrKeepsType) = true := by decide
+/-- LOOKUP takes the directory's attributes from GetAttr (the model's `lookupDirAttr`), WRITE refuses links -/
+theorem gen_lookup_dirattrs_and_write : (Gen.lookupDirAttrsFromGetAttr && Gen.writeRefusesSymlink) = true := by decide
 
 /-- the wire attributes are a function of (kind, perm, size, fileid): type from the kind Lstat reported
     (regular 1, directory 2, symbolic link 5) — symbolic links are always reported as links -/
